@@ -629,6 +629,15 @@ MUTANTS = [
     M("O8-2-variant-only-skip", ["C05", "C12"], (RP, "                if is_member {", "                if matches!(self, RankPair::Suited(_, _)) && high_suit == Suit::Club {\n                    continue;\n                }\n                if is_member {"), base="O8-2"),
     M("O8-2-kicker-gets-high-suit", ["C05", "C12"], (RP, "                        Card::new(kicker, kicker_suit),", "                        Card::new(kicker, high_suit),"), base="O8-2"),
     M("O6-3-suited-admits-all", ["C05", "C12"], (RP, "(high, kicker, 4, |left, right| left == right)", "(high, kicker, 4, |left, right| left <= right)"), base="O6-3"),
+    M("benign-O3-2-collect-option-vec", ["C02", "C03", "C11", "C08"], base="O3-2", benign=True),
+    M("O3-2-max", ["C03", "C11"], (SD, "            .map(|player| player.hand.power_index())\n            .min();", "            .map(|player| player.hand.power_index())\n            .max();"), base="O3-2"),
+    M("O3-2-flag-ne", ["C03", "C11"], (SD, "player.win = Some(player.hand.power_index()) == strongest_index;", "player.win = Some(player.hand.power_index()) != strongest_index;"), base="O3-2"),
+    M("O3-2-second-hole-card-unchecked", ["C02", "C03"], (SD, "if board.contains(&hole_cards[0]) || board.contains(&hole_cards[1]) {", "if board.contains(&hole_cards[0]) || board.contains(&hole_cards[0]) {"), base="O3-2"),
+    M("O3-2-colliding-players-skipped", ["C03"], (SD, "            .map(|hole_cards| ShowdownPlayer::new(hole_cards, board))\n            .collect::<Option<Vec<_>>>()?;", "            .filter_map(|hole_cards| ShowdownPlayer::new(hole_cards, board))\n            .collect::<Vec<_>>();"), base="O3-2"),
+    M("benign-O8-3-format-built-regex-struct", ["C05", "C06", "C09", "C10", "C17"], base="O8-3", benign=True),
+    M("O8-3-weight-any-fraction-of-one", ["C10"], (TK, "Regex::new(&format!(r\"^{}(:(0(\\.[0-9]+)?|1(\\.0+)?))?$\", notation)).unwrap()", "Regex::new(&format!(r\"^{}(:(0(\\.[0-9]+)?|1(\\.[0-9]+)?))?$\", notation)).unwrap()"), base="O8-3"),
+    M("O8-3-unanchored", ["C09", "C05"], (TK, "Regex::new(&format!(r\"^{}(:(0(\\.[0-9]+)?|1(\\.0+)?))?$\", notation)).unwrap()", "Regex::new(&format!(r\"{}(:(0(\\.[0-9]+)?|1(\\.0+)?))?$\", notation)).unwrap()"), base="O8-3"),
+    M("O8-3-fields-swapped", ["C05"], (TK, "        single_pocket_pair: token(r\"[AKQJT98765432]{2}\"),\n        single_rank_pair: token(r\"[AKQJT98765432]{2}[so]\"),", "        single_pocket_pair: token(r\"[AKQJT98765432]{2}[so]\"),\n        single_rank_pair: token(r\"[AKQJT98765432]{2}\"),"), base="O8-3"),
     M("benign-F3-3-computed-flush-weight", ["C01", "C07", "C08"], base="F3-3", benign=True),
     M("F3-3-unreversed", ["C01", "C07"], (MH, "1 << (12 - u8::from(card.rank()))", "1 << u8::from(card.rank())"), base="F3-3"),
     M("F3-3-off-by-one", ["C01", "C07"], (MH, "1 << (12 - u8::from(card.rank()))", "1 << (13 - u8::from(card.rank()))"), base="F3-3"),
